@@ -259,6 +259,33 @@ def template_vars(name):
     return TEMPLATE_VARS[name]
 
 
+def wire_web_app():
+    """the WebApp the way the server wires it: web_module.configure(), with
+    the parts that this harness has already set up (settings, lights, run-time
+    library) left alone -- the binding of the application object is the
+    repository's own"""
+    from web import web_module
+
+    class Keep:
+        def add_overrides(self, *_): pass
+        def apply_file(self, *_): pass
+        def configure(self): pass
+    saved = (web_module.injection.configure, web_module.settings.using,
+             web_module.light_module.configure,
+             web_module.runtime_module.configure)
+    web_module.injection.configure = lambda: None
+    web_module.settings.using = lambda *_: Keep()
+    web_module.light_module.configure = lambda: None
+    web_module.runtime_module.configure = lambda: None
+    try:
+        web_module.configure()
+    finally:
+        (web_module.injection.configure, web_module.settings.using,
+         web_module.light_module.configure,
+         web_module.runtime_module.configure) = saved
+    return injection.provide(i_web.WebApp)
+
+
 class Scenario:
     def __init__(self, ctx, manifest, workdir, replay, responsive=False):
         manifest = copy.deepcopy(manifest)
@@ -294,9 +321,11 @@ class Scenario:
                 # device A's colour identifies the script that ran
                 f.write('hue {} set "A"\n'.format(k + 1))
             self.by_path[model_path(e)] = (k, e)
-        # an unlisted script lying around in the script directory
-        with open(os.path.join(workdir, 'scripts', 'unlisted.ls'), 'w') as f:
-            f.write('hue 99 set "A"\n')
+        # unlisted scripts lying around in the script directory
+        for stray in ('unlisted.ls', 'off-all.ls', 'off.ls', 'all-off.ls'):
+            if not os.path.exists(os.path.join(workdir, 'scripts', stray)):
+                with open(os.path.join(workdir, 'scripts', stray), 'w') as f:
+                    f.write('hue 99 set "A"\n')
         self.cwd = os.getcwd()
         os.chdir(workdir)
         env.configure(simnet.make_devices(
@@ -305,8 +334,7 @@ class Scenario:
                        'manifest_file_name': 'manifest.json'})
         self.gate = Gate()
         simnet.GATE = self.gate
-        self.app = web_app_mod.WebApp()
-        injection.bind_instance(self.app).to(i_web.WebApp)
+        self.app = wire_web_app()
         self.jc = self.app._jobs
         self.jobs = []            # (kind, name, job)
         self.stops = []           # job names that received request_stop
@@ -569,7 +597,14 @@ class Scenario:
                 return
             ctx.count(handler + '_ok')
         elif handler == 'off':
-            pass           # not part of the statement
+            # runs the manifest's entry for the path "off"; without such an
+            # entry it is a request for an unlisted path
+            if 'off' not in self.by_path and (new_jobs or opened):
+                self.fail('unlisted-path-acts', 'GET /off without an "off" '
+                          'entry started {} opened {}'.format(
+                              [j[:2] for j in new_jobs], opened))
+                return
+            ctx.count('off_requests')
         if exc is None:
             for template, context in RENDERS:
                 self.check_context(template, context)
@@ -601,6 +636,8 @@ def run_case(ctx, i, workdir):
             seq.append('/stop-current')
         elif r < 0.89:
             seq.append('/stop-all')
+        elif r < 0.905:
+            seq.append('/off')
         elif r < 0.93:
             seq.append('/status')
         elif r < 0.96:
